@@ -318,7 +318,7 @@ def check_cli(n, lo, hi):
         return [{'kind': 'cli-failed', 'where': 'transform --trans', 'case': case,
                  'detail': 'exit status %r %s' % (st, cli.describe(exc)), 'what': 'pipeline through the CLI failed'}]
     try:
-        got = codecs.decode_export(open(dest, encoding='utf-8').read())
+        got = codecs.decode_export(codecs.read_out(dest))
     except codecs.DecodeError as e:
         return [{'kind': 'undecodable', 'where': 'transform --trans', 'case': case, 'detail': str(e),
                  'what': 'pipeline output is not an export file'}]
